@@ -43,7 +43,7 @@ PAIRWISE = ("distanceInv", "distancePairs", "selfCoordNum")
 SINGLE_GROUP = ("gyration", "inertia", "inertiaZ", "dipoleMagnitude", "rmsd", "eigenvector", "cartesian") + ROT_TYPES
 VTYPE = {"distanceVec": "vec3", "distanceDir": "unit3", "orientation": "quat", "cartesian": "vector",
          "distancePairs": "vector"}
-NOT_IN_CORPUS = ["alpha", "dihedralPC", "gspath", "gzpath", "aspath", "azpath", "linearCombination", "gspathCV",
+NOT_IN_CORPUS = ["gspath", "gzpath", "aspath", "azpath", "linearCombination", "gspathCV",
                  "gzpathCV", "aspathCV", "azpathCV", "neuralNetwork", "alchLambda", "alchFLambda", "mapTotal",
                  "customColvar", "torchANN"]
 
@@ -90,6 +90,9 @@ def option_sets():
     add("eigenvector", fit="self")
     for ct in ROT_TYPES:
         add(ct)
+    for v in ("default", "params", "angles", "hbonds"):
+        add("alpha", variant=v)
+    add("dihedralPC")
     return o
 
 
@@ -118,6 +121,8 @@ def invariance(ctype, opts):
         return (True, True) if fit in ("rotate", "fitgroup") else (False, True)
     if ctype == "eigenvector":
         return (True, True) if fit == "self" else (False, True)   # centred v_i: sum v_i . t = 0
+    if ctype in ("alpha", "dihedralPC"):
+        return (True, True)           # functions of interatomic angles, dihedrals and distances
     if ctype in ROT_TYPES:
         return (False, True)          # rotation measured from fixed reference positions, about the centre
     return (False, False)             # polarTheta, polarPhi: laboratory origin and axes
@@ -166,6 +171,10 @@ def lattice_units(ctype, opts, comp_blk):
 
     if ctype == "hBond":
         return [[int(G.tget(comp_blk, "donor")) - 1], [int(G.tget(comp_blk, "acceptor")) - 1]]
+    if ctype in ("alpha", "dihedralPC"):
+        # single atoms joined by minimum-image vectors only
+        a, b = G.G_range(G.tget(comp_blk, "residueRange"))
+        return [[k] for k in range(4 * (b - a + 1))]
     if ctype in PAIRWISE or (ctype == "coordNum" and opts.get("variant") != "g2center"):
         # only pairwise minimum-image distances between atoms (manual, atom-group wrapping, item ii)
         return [[a] for _, g in groups for a in g.ids]
@@ -192,7 +201,7 @@ def lattice_units(ctype, opts, comp_blk):
 # ---------------------------------------------------------------------------------------------
 
 def comp_blocks(cvtree):
-    return [(k, v) for k, v in cvtree if isinstance(v, list) and k in corpus.COMPONENTS]
+    return [(k, v) for k, v in cvtree if isinstance(v, list) and (k in corpus.COMPONENTS or k in corpus.EXTRA_COMPONENTS)]
 
 
 def set_key(blk, key, val):
@@ -376,6 +385,9 @@ def gen_case(rng, idx, ctype, opts, label, cell, combo=None):
                 exp = rng.choice([2, 3])
         for _try in range(50):
             p2 = list(pool)
+            if ctype in corpus.EXTRA_COMPONENTS:
+                cv = corpus.make_extra_colvar(rng, sysm, p2, "cv1", ctype, copts, (), coeff=coeff, exp=exp)
+                break
             cv = corpus.make_colvar(rng, sysm, p2, "cv1", ctype, copts, (), coeff=coeff, exp=exp)
             # corpus silently drops the fit options of groups that are too small: the label must be true
             if copts.get("fit") in ("center", "rotate", "fitgroup", "fitgroup_nograd") and "centerToReference on" not in cv["text"]:
@@ -387,7 +399,8 @@ def gen_case(rng, idx, ctype, opts, label, cell, combo=None):
     tree = G.parse_config(cv["text"])
     cvtree = tree[0][1]
     case = dict(idx=idx, sysm=sysm, ctype=cv["ctype"], opts=opts, label=label, cell=cell, vtype=vtype, combo=bool(combo),
-                text0=cv["text"])
+                text0=cv["text"], files=cv.get("files", {}),
+                names={(r, nm, seg): k - 1 for (k, r, nm, seg) in sysm.get("names", [])})
     # orientation: explicit closestToQuaternion in half of the cases
     if ctype == "orientation":
         cb = comp_blocks(cvtree)[0][1]
@@ -498,15 +511,16 @@ def max_dev(a, b, period=None):
     return max(abs(x - y) for x, y in zip(a, b))
 
 
-def model_eval(model, X, sysm, rng):
+def model_eval(model, X, case, rng):
     """value, flags, and a sensitivity estimate (change of the value per unit change of coordinates)"""
-    res, ctx = model.evaluate(X, sysm["masses"], sysm["charges"], sysm["cell"])
+    sysm = case["sysm"]
+    res, ctx = model.evaluate(X, sysm["masses"], sysm["charges"], sysm["cell"], case["names"], case["files"])
     h = 1e-7
     period = model_period(model)
     sens = 0.0
     for _ in range(2):
         d = np.array([[rng.uniform(-1, 1) for _ in range(3)] for _ in range(len(X))]) * h
-        r2, _c = model.evaluate(X + d, sysm["masses"], sysm["charges"], sysm["cell"])
+        r2, _c = model.evaluate(X + d, sysm["masses"], sysm["charges"], sysm["cell"], case["names"], case["files"])
         sens = max(sens, max_dev(res.value, r2.value, period) / h)
     return res, ctx, sens
 
@@ -610,7 +624,7 @@ def check_case(c, tl, case, r, ev, sp, modelrng):
         for name in ok_names:
             if name not in models:
                 continue
-            res, ctx, sens = model_eval(models[name], X, sysm, modelrng)
+            res, ctx, sens = model_eval(models[name], X, case, modelrng)
             mres[(kind, name)] = (res, ctx, sens)
             if kind == "base" and name == "cv1":
                 sens0 = sens
@@ -773,7 +787,7 @@ def check_optimality(c, tl, case, obs, mres, files, rng):
 
 def plan(c, tier):
     rng = c.rng
-    reps = 2 if tier == "quick" else 16
+    reps = 2 if tier == "quick" else 40
     cases = []
     idx = 0
     osets = option_sets()
@@ -819,6 +833,11 @@ def run(tier, replay):
 
     def runner(flavour):
         def f(case):
+            wd = os.path.join(c.work, "c%d" % case["idx"])
+            os.makedirs(wd, exist_ok=True)
+            for fn, content in case["files"].items():
+                with open(os.path.join(wd, fn), "w") as fh:
+                    fh.write(content)
             return common.run_esim(flavour, scenario(case), os.path.join(c.work, "c%d" % case["idx"]),
                                    "c02_" + flavour, timeout=300 if flavour == "plain" else 600)
         return f
@@ -862,7 +881,7 @@ def run(tier, replay):
     c.extra["worst_rel_dev"] = {k: {"relative_deviation": v[0], "fraction_of_tolerance": v[1]} for k, v in tl.worst.items()}
     l2 = sorted(c.extra.get("types_L2", []))
     l1 = sorted(c.extra.get("types_L1", []))
-    allc = list(corpus.COMPONENTS)
+    allc = list(corpus.COMPONENTS) + list(corpus.EXTRA_COMPONENTS)
     c.extra["coverage_L2_and_L1"] = sorted(set(l2) & set(l1))
     c.extra["coverage_L2_only"] = sorted(set(l2) - set(l1))
     c.extra["coverage_L1_only"] = sorted(set(l1) - set(l2))
